@@ -528,13 +528,13 @@ class SchemaGen:
             decl["type"] = ["ac", self.gen_cdef(f, None, depth=1)]
         else:
             decl["type"] = self.simple_ref(f)
-            if self.has("defaults") and r.random() < 0.15:
-                v = self.default_for(decl["type"])
-                if v:
-                    if r.random() < 0.7:
-                        decl["default"] = v
-                    else:
-                        decl["fixed"] = self.fixed_for(decl["type"])
+            kd = r.random()
+            if self.has("defaults") and kd < 0.12:
+                # a fixed value (optional elements and choice branches included: absent ones must stay absent)
+                decl["type"] = ["b", r.choice(["string", "token", "int", "boolean", "date", "NMTOKEN", "gYear", "short", "integer"])]
+                decl["fixed"] = self.fixed_for(decl["type"])
+            elif self.has("defaults") and kd < 0.3:
+                decl["default"] = self.default_for(decl["type"])
         if self.has("nillable") and r.random() < 0.25 and decl["default"] is None and decl["fixed"] is None:
             decl["nillable"] = True
         if self.has("ns") and r.random() < 0.15:
@@ -579,7 +579,13 @@ class SchemaGen:
                 items.append(p)
             c["particle"] = {"k": "all", "items": items, "min": r.choice([1, 1, 0]), "max": 1}
         elif r.random() < 0.92 or c["base"]:
-            p = self.gen_particle(f, names, 2 if depth == 0 else 1, top=True, owner=name)
+            if r.random() < (0.45 if (c["base"] and self.has_rep_choice(c["base"])) else 0.15):
+                # the shape compound fields are made for, with enough branches for the default field name ("choice")
+                n = r.choice([2, 3, 4, 5, 5])
+                p = {"k": "choice", "items": [self.gen_leaf(f, names, name, single=True) for _ in range(n)],
+                     "min": r.choice([0, 1]), "max": None}
+            else:
+                p = self.gen_particle(f, names, 2 if depth == 0 else 1, top=True, owner=name)
             if p["k"] in ("el", "ref", "group", "any"):
                 p = {"k": "seq", "items": [p], "min": 1, "max": 1}
             c["particle"] = p
@@ -611,6 +617,18 @@ class SchemaGen:
     def is_mixed(self, name):
         c = self.m["ctypes"][name]
         return c["mixed"] or (c["base"] is not None and self.is_mixed(c["base"]))
+
+    def has_rep_choice(self, name):
+        c = self.m["ctypes"][name]
+        p = c["particle"]
+
+        def rep(p):
+            if p is None or p["k"] in ("el", "ref", "any", "group"):
+                return False
+            if p["k"] == "choice" and p["max"] is None:
+                return True
+            return any(rep(i) for i in p["items"])
+        return rep(p) or (c["base"] is not None and self.has_rep_choice(c["base"]))
 
     def type_has_wild(self, name):
         c = self.m["ctypes"][name]
@@ -750,7 +768,7 @@ class SchemaGen:
                     continue
                 m["ctypes"][dn] = d
         # global elements of complex type; substitution groups
-        for _ in range(r.choice([0, 1, 2])):
+        for _ in range(r.choice([1, 2]) if self.has("subst") else r.choice([0, 1, 2])):
             n = self.fresh(self.el_pool, set(m["elements"]))
             f = self.pick_file()
             cts = [x for x, c in m["ctypes"].items() if self.visible(f, c["file"])]
@@ -759,9 +777,15 @@ class SchemaGen:
             m["elements"][n] = {"name": n, "type": ["c", r.choice(cts)], "nillable": self.has("nillable") and r.random() < 0.2,
                                 "form": None, "default": None, "fixed": None, "global": True, "abstract": False,
                                 "subst": None, "file": f}
-        if self.has("subst"):
-            heads = [n for n, e in m["elements"].items() if e["subst"] is None and e["type"][0] in ("b", "s", "c")]
-            for h in r.sample(heads, min(len(heads), r.choice([1, 1, 2]))):
+        for _round in range(2 if self.has("subst") else 0):
+            if _round == 1 and r.random() < 0.5:
+                break                                   # second round: members of members (nested substitution)
+            heads = [n for n, e in m["elements"].items() if e["type"][0] in ("b", "s", "c")]
+            cheads = [n for n in heads if m["elements"][n]["type"][0] == "c"]
+            picked = r.sample(heads, min(len(heads), r.choice([1, 1, 2])))
+            if cheads and not any(h in cheads for h in picked):
+                picked.append(r.choice(cheads))         # complex-typed heads: members may then be typed by derived types
+            for h in picked:
                 he = m["elements"][h]
                 for _ in range(r.choice([1, 2])):
                     n = self.fresh(self.el_pool, set(m["elements"]))
@@ -775,9 +799,27 @@ class SchemaGen:
                         continue
                     if t[0] == "s" and not self.visible(f, m["stypes"][t[1]]["file"]):
                         continue
+                    if t[0] == "c" and n not in m["ctypes"] and r.random() < 0.7 and not self.uses_all(m["ctypes"][t[1]]) \
+                            and not self.simple_content(t[1]):
+                        # the member is typed by a global complex type of its OWN name, derived from the head's type
+                        base = t[1]
+                        self.blocked = {x for x in m["ctypes"] if self.mentions(x, base)} | {base}
+                        d = self.gen_cdef(min(f, m["ctypes"][base]["file"]), n, allow_base=False)
+                        self.blocked = set()
+                        clash = set(self.type_names(["c", base])) & set(self.particle_names(d["particle"]))
+                        aclash = set(self.type_attr_names(["c", base])) & set(
+                            [a.get("name") or a.get("ref") for a in d["attrs"]] + [x for g in d["agroups"] for x in self.agroup_names(g)])
+                        if not clash and not aclash and not self.uses_all(d) and d["simple"] is None \
+                                and (d["particle"] is None or d["particle"]["k"] != "all"):
+                            d["base"], d["mixed"], d["file"] = base, self.is_mixed(base), min(f, m["ctypes"][base]["file"])
+                            if not (self.type_has_wild(base) and d["particle"] and d["particle"]["items"][-1:] and
+                                    d["particle"]["items"][-1]["k"] == "any"):
+                                m["ctypes"][n] = d
+                                f = d["file"]
+                                t = ["c", n]
                     m["elements"][n] = {"name": n, "type": t, "nillable": False, "form": None, "default": None, "fixed": None,
                                         "global": True, "abstract": False, "subst": h, "file": f}
-                if r.random() < 0.25:
+                if r.random() < 0.25 and he["subst"] is None:
                     he["abstract"] = True
         # root
         rn = self.fresh(["root", "doc", "Root", "envelope", "message"] + ([x for x in m["ctypes"]][:1] if r.random() < 0.1 else []),
@@ -1141,6 +1183,7 @@ class DocGen:
         self.sg.m = m
         self.style = "rand"
         self.depth = 0
+        self.nodes = 0
         self.vary = True          # False: canonical-looking lexical forms; True: varied forms; "exotic": also empty values
         self.exotic = False       # xsi:nil instances, empty elements where a default applies, empty lists / strings
 
@@ -1166,8 +1209,8 @@ class DocGen:
     # -- counts
     def count(self, p):
         mn, mx = p["min"], p["max"]
-        if self.style == "min" or self.depth > 2:
-            return mn
+        if self.style == "min" or self.depth > 2 or self.nodes > 70:
+            return mn                                   # size budget: large documents only cost evaluation time
         hi = mx if mx is not None else max(mn, 1) + 2
         if self.depth == 2:
             hi = min(hi, max(mn, 1))
@@ -1298,6 +1341,7 @@ class DocGen:
         t = e["type"]
         attrs, kids, info = [], [], {"eo": False}
         self.depth += 1
+        self.nodes += 1
         if self.depth > 12:
             raise TooDeep()
         try:
@@ -1358,6 +1402,7 @@ class DocGen:
     def document(self, style="rand", pretty=False, prefix_style=0):
         self.style = style
         self.depth = 0
+        self.nodes = 0
         root = self.element(self.m["elements"][self.m["root"]], as_root=True)
         return render(root, pretty, prefix_style, self.r)
 
